@@ -95,6 +95,18 @@ CLAIMED.update({
          "A use of a reclaimed string is visible only when it panics (the heap checks dereferences of deallocated strings); C17 decides the heap contract itself.",
          "DESIGN.md §4 C11"),
 })
+CLAIMED.update({
+ "C15": ("exploration",
+         "property testing with generator-side ground truth: unique-name programs and their scope-level-renamed variants; go-to-definition / find-references / rename compared with the binder each occurrence resolves to; rename additionally checked by round trip and by the reference interpreter",
+         "Hosts are G1 accepted programs whose local names are unique per member, so the binder of every occurrence is known; the queried document is that program or the same program with binders renamed after their scope level (sibling scopes reuse names). At tape-chosen occurrences definition must land on the right binding, references must be exactly that variable's occurrences, rename must change exactly them, keep the document error-free and behaviourally identical under the reference interpreter, and renaming back must restore the formatted original.",
+         "Parameters of interface member declarations are not queried (no scope). For or-pattern variables any alternative's binder counts as the binding.",
+         "DESIGN.md §4 C15"),
+ "C16": ("exploration",
+         "property testing of proposed text edits: generated workspaces and documents (imports in any order / layout with comments), every auto-import quick fix and completion additional-edit set applied to the text and re-checked",
+         "For every unresolved-class diagnostic of a generated document the proposed edits are applied by the harness's own edit applier (range and overlap checks), the result is parsed, its imports / classes / comments compared with the original, and sent back to the server to confirm that the class resolves and no new diagnostic appears.",
+         "The module and class named by a quick fix are read from its title. Positions use the parser's (0-based line, byte column) convention.",
+         "DESIGN.md §4 C16"),
+})
 NOT_YET = {}
 
 props = [json.loads(l) for l in open(os.path.join(HERE, "properties.jsonl"))]
